@@ -78,7 +78,7 @@ def work(job):
     return wi, cond, sel, share, st, (repr(got) if st == "exc" else got), want, the_outcome
 
 
-jobs = [(wi, c, share) for wi in range(4) for c in conditions() for share in ((False, True) if c[0] in ("and", "or") else (False,))]
+jobs = [(wi, c, share) for wi in range(len(G.worlds())) for c in conditions() if wi < 4 or "n" in G.free_vars(c) for share in ((False, True) if c[0] in ("and", "or") else (False,))]
 jobs += [(wi, c, "project") for wi in range(4) for c in conditions() if len(G.free_vars(c)) > 1]
 import zlib
 def always(c):
